@@ -6,7 +6,7 @@ import hashlib
 import json
 import traceback
 
-from .core import Diverged, Streams, Violation, WatchdogTimeout
+from .core import Diverged, EndOfDomain, Streams, Violation, WatchdogTimeout
 from .ops import OPS, execute
 from .world import World
 
@@ -115,6 +115,8 @@ def run_one(ctx, profile, seed, run, ops=None, cfg=None, keep_ops=True):
         res.violation = {"prop": v.prop, "check": v.check, "detail": v.detail[:2000], "step": w.step}
     except Diverged as d:
         res.aborted = str(d)[:300]
+    except EndOfDomain:
+        w.counters["probe:run_ended_outside_domain"] += 1
     except WatchdogTimeout:
         res.aborted = "timeout"
     except Exception:
